@@ -3,7 +3,7 @@
 From Coq Require Extraction.
 From Coq Require Import ExtrOcamlBasic.
 From RainVerif Require Import Params.
-From RainVerif.model Require Import Bytes Crc Log LogScript Bloom FilterBlock Key Block Table TableSpec Version Lsm LsmSpec DbSpec LockOwner Cursor Conc Codec.
+From RainVerif.model Require Import Bytes Crc Log LogScript Bloom FilterBlock Key Block Table TableSpec Version Lsm LsmSpec DbSpec LockOwner Cursor Conc Codec Gc.
 
 Extraction Language OCaml.
 
@@ -21,4 +21,5 @@ Extraction "../ocaml/model.ml"
   LockOwner.step world_init
   d_run d_new iter_children m_run m_new cursor_run
   cstep spawn c_init pc_of spec_get
-  batch_encode batch_decode vchange_encode vchange_decode vc_empty.
+  batch_encode batch_decode vchange_encode vchange_decode vc_empty
+  keep gc.
